@@ -62,7 +62,7 @@ Definition dec_of_Z (z : Z) : bytes :=
   | Zneg p => 45 :: pos_digits 20 (Npos p) []
   end.
 
-(* the block comment body: while (source[i] != 0) { if "*/" skip 2, break; if '\n' line++, line_start = i+1; i++ } *)
+(* the block comment body: while (source[i] != 0) { if star-slash: skip 2, break; if newline: line++, line_start = i+1; i++ } *)
 Fixpoint skip_block (r : bytes) (i line ls : N) : bytes * N * N * N :=
   match r with
   | [] => ([], i, line, ls)
@@ -72,7 +72,7 @@ Fixpoint skip_block (r : bytes) (i line ls : N) : bytes * N * N * N :=
       else skip_block t (i + 1) line ls
   end.
 
-(* the string body: while (c != 0 && c != '"') { if (c == '\\' && source[i+1] != 0) i += 2 else i++ }: (content, rest at the stop) *)
+(* the string body: while (c != 0 && c != QUOTE) { if (c == BACKSLASH && source[i+1] != 0) i += 2 else i++ }: (content, rest at the stop) *)
 Fixpoint string_body (fuel : nat) (r : bytes) : bytes * bytes :=
   match fuel with
   | O => ([], r)
@@ -116,7 +116,7 @@ Definition op1 (c : N) : option kind :=
 Definition escape_value (c : N) : Z :=
   match c with
   | 110 => 10 | 116 => 9 | 114 => 13 | 48 => 0 | 92 => 92 | 39 => 39 | 34 => 34
-  | _ => if N.ltb c 128 then Z.of_N c else (Z.of_N c - 256)%Z          (* char_value = source[i]  (plain char is signed) *)
+  | _ => if N.ltb c 128 then Z.of_N c else (Z.of_N c - 256)%Z          (* char_value = source[i], plain char is signed *)
   end.
 
 (* one pass of the while loop body, entered with r = c :: t, c <> 0 *)
@@ -124,7 +124,7 @@ Definition lex_step (c : N) (t : bytes) (i line ls col : N) : step :=
   if is_space c then
     if N.eqb c 10 then SSkip t (i + 1) (line + 1) (i + 1) 1 else SSkip t (i + 1) line ls col
   else if N.eqb c 35 then
-    let (cm, r') := span (fun x => negb (N.eqb x 10)) (c :: t) in SSkip r' (i + N.of_nat (length cm)) line ls col
+    let (cm, r') := span (fun x => negb (N.eqb x 10)) (c :: t) in SSkip r' (i + N.of_nat (List.length cm)) line ls col
   else if N.eqb c 47 && N.eqb (hd0 t) 42 then
     match skip_block (tl t) (i + 2) line ls with (r', i', line', ls') => SSkip r' i' line' ls' col end
   else
@@ -146,9 +146,9 @@ Definition lex_step (c : N) (t : bytes) (i line ls col : N) : step :=
             else SFail
       end
     else if N.eqb c 34 then
-      let (body, r') := string_body (S (length t)) t in
+      let (body, r') := string_body (S (List.length t)) t in
       match r' with
-      | q :: r2 => if N.eqb q 34 then SEmit (LTok K_STRING (Some body) line column) r2 (i + 2 + N.of_nat (length body)) line ls else SFail
+      | q :: r2 => if N.eqb q 34 then SEmit (LTok K_STRING (Some body) line column) r2 (i + 2 + N.of_nat (List.length body)) line ls else SFail
       | [] => SFail                                                    (* "Unterminated string" *)
       end
     else if is_digit c || (N.eqb c 45 && is_digit (hd0 t)) then
@@ -159,13 +159,13 @@ Definition lex_step (c : N) (t : bytes) (i line ls col : N) : step :=
           if N.eqb dot 46 && is_digit (hd0 r2) then
             let (fs, r3) := span is_digit r2 in
             let txt := sign ++ ds ++ dot :: fs in
-            SEmit (LTok K_FLOAT (Some txt) line column) r3 (i + N.of_nat (length txt)) line ls
-          else let txt := sign ++ ds in SEmit (LTok K_NUMBER (Some txt) line column) r1 (i + N.of_nat (length txt)) line ls
-      | [] => let txt := sign ++ ds in SEmit (LTok K_NUMBER (Some txt) line column) r1 (i + N.of_nat (length txt)) line ls
+            SEmit (LTok K_FLOAT (Some txt) line column) r3 (i + N.of_nat (List.length txt)) line ls
+          else let txt := sign ++ ds in SEmit (LTok K_NUMBER (Some txt) line column) r1 (i + N.of_nat (List.length txt)) line ls
+      | [] => let txt := sign ++ ds in SEmit (LTok K_NUMBER (Some txt) line column) r1 (i + N.of_nat (List.length txt)) line ls
       end
     else if is_ident_start c then
       let (id, r1) := span is_ident_char (c :: t) in
-      SEmit (LTok (keyword_or_identifier id) (Some id) line column) r1 (i + N.of_nat (length id)) line ls
+      SEmit (LTok (keyword_or_identifier id) (Some id) line column) r1 (i + N.of_nat (List.length id)) line ls
     else
       match op2 c (hd0 t) with
       | Some (k, 2) => SEmit (LTok k None line column) (tl t) (i + 2) line ls
@@ -194,7 +194,7 @@ Fixpoint lex_loop (fuel : nat) (r : bytes) (i line ls col : N) (acc : list ltoke
 
 (* the C string ends at the first NUL *)
 Definition cstring (src : bytes) : bytes := fst (span (fun x => negb (N.eqb x 0)) src).
-Definition tokenize (src : bytes) : lres := let s := cstring src in lex_loop (S (length s)) s 0 1 0 1 [].
+Definition tokenize (src : bytes) : lres := let s := cstring src in lex_loop (S (List.length s)) s 0 1 0 1 [].
 
 (* the token stream the parser model reads: kinds and values, without the final EOF *)
 Definition parser_tokens (l : list ltoken) : list token :=
